@@ -456,6 +456,8 @@ type idxAnalyzer struct {
 	sites []idxSite
 	// summaries of functions in the package: result i satisfies  res - len(param j) <= w
 	retLE map[types.Object][]retFact
+	// retCond: return facts that hold only if, at the call, argument needIP <= len(argument needSP)
+	retCond map[types.Object][]retFact
 	// fields written by methods (transitively), by receiver
 	writes map[*types.Func]map[string]bool
 	declOf map[*types.Func]*ast.FuncDecl
@@ -515,6 +517,9 @@ type retFact struct {
 	hasLo  bool
 	// geParam: res >= (entry value of) the integer parameter param, e.g. a scanner that only moves forward
 	geParam bool
+	// conditional fact: valid only when arg[needIP] <= len(arg[needSP]) at the call site
+	cond           bool
+	needIP, needSP int
 }
 
 type callCtx struct {
@@ -1221,6 +1226,46 @@ func (a *idxAnalyzer) assign(z *zone, lhs ast.Expr, rhs ast.Expr) {
 			}
 		}
 	}
+	// conditional summaries (res <= len(seq) provided arg <= len(seq) at the call): the condition is
+	// about the argument's value before the assignment, so it is evaluated here
+	type condApply struct {
+		seqTerm string
+		w       int
+	}
+	var condFacts []condApply
+	if call, ok := ast.Unparen(rhs).(*ast.CallExpr); ok {
+		var fid types.Object
+		switch f := ast.Unparen(call.Fun).(type) {
+		case *ast.Ident:
+			fid = a.info.Uses[f]
+		case *ast.SelectorExpr:
+			if sel, ok := a.info.Selections[f]; ok {
+				fid = sel.Obj()
+			} else {
+				fid = a.info.Uses[f.Sel]
+			}
+		}
+		for _, f := range a.retCond[fid] {
+			if !f.cond || f.res != 0 || !f.lenOf || f.needIP >= len(call.Args) || f.needSP >= len(call.Args) || f.param >= len(call.Args) || f.param < 0 {
+				continue
+			}
+			la, ok := a.lin(call.Args[f.needIP])
+			sl := a.seqLenOf(z, call.Args[f.needSP])
+			if !ok || sl == nil || !a.proveLE(z, linSub(la, sl), 0) {
+				continue
+			}
+			if tl := a.seqLenOf(z, call.Args[f.param]); tl != nil {
+				if sk, ok := tl.single(); ok {
+					condFacts = append(condFacts, condApply{sk, f.w + tl.c})
+				}
+			}
+		}
+	}
+	defer func() {
+		for _, cf := range condFacts {
+			z.add(key, cf.seqTerm, cf.w)
+		}
+	}()
 	const preTerm = "pre#arg"
 	for i, la := range geArgs {
 		// snapshot: pre = arg
